@@ -685,6 +685,118 @@ def np_std(a):
     return np.std(np.asarray(a, dtype=float))
 
 
+@contract("dask_array/_expr.py::ArrayExpr.optimize", spec="idempotent", props=["C08"])
+class optimize_idempotent:
+    """simplify / lower / fuse terminate without error on every catalogue entry that computes un-optimised, optimising an
+    already optimised expression gives an expression of the same name (simplify, lower_completely and the whole optimize
+    each reach a fixpoint after one application), and the optimised expression still computes"""
+    bounded_only = True
+    params = {"entry": "const", "tier": "const"}
+    scope = "catalogue entries (all sources, layouts and routine families of the catalogue)"
+
+    def real():
+        return lambda e: e.optimize()
+
+    def call(fn, entry, tier):
+        import time
+        import numpy as np
+        x, expected, info = build(entry, tier)
+        e = x.expr
+        try:
+            raw = _eval_unoptimized(e)
+            raw_ok = True
+        except Exception:
+            raw, raw_ok = None, False
+        t0 = time.time()
+        s1 = e.simplify()
+        s2 = s1.simplify()
+        l1 = s1.lower_completely()
+        l2 = l1.lower_completely()
+        o1 = fn(e)
+        o2 = fn(o1)
+        dt = time.time() - t0
+        try:
+            from dask_array._new_collection import new_collection
+            val = np.asarray(new_collection(o1).compute())
+            err = None
+        except Exception as ex:
+            val, err = None, f"{type(ex).__name__}: {str(ex)[:80]}"
+        return {"raw_ok": raw_ok, "raw": raw, "names": (s1._name, s2._name, l1._name, l2._name, o1._name, o2._name), "secs": dt,
+                "val": val, "err": err}
+
+    def requires(entry, tier):
+        return True
+
+    def ensures(result, entry, tier):
+        n = result["names"]
+        r = {"simplify-is-a-fixpoint": n[0] == n[1], "lower_completely-is-a-fixpoint": n[2] == n[3],
+             "optimize-is-idempotent": n[4] == n[5], "terminates-quickly": result["secs"] < 60}
+        if result["raw_ok"]:
+            r["optimised-form-of-a-computable-program-computes"] = result["err"] is None
+            if result["err"] is None and "unknown" not in entry:
+                r["optimised-value-equals-raw"] = _same(result["val"], result["raw"])
+        return r
+
+    def domain(tier, rng):
+        yield from entry_domain(tier, rng)
+
+
+@contract("dask_array/_expr.py::ArrayExpr.optimize", spec="idempotent-on-rewrite-targets", props=["C08"])
+class optimize_idempotent_rw(optimize_idempotent):
+    """the same on the compositions chosen to fire the slice / rechunk / shuffle pushdowns, nested-op fusion, sliding-window
+    substitution, chunk unification and rechunk-into-IO (the rewrite-target catalogue of C02)"""
+    scope = "rewrite-target catalogue (1-D / 2-D / 3-D sources, several layouts, NumPy and recording sources)"
+
+    def call(fn, entry, tier):
+        import time
+        import numpy as np
+        x, expected, info = rw_entries(tier)[entry]()
+        e = x.expr
+        try:
+            raw = _eval_unoptimized(e)
+            raw_ok = True
+        except Exception:
+            raw, raw_ok = None, False
+        t0 = time.time()
+        s1 = e.simplify()
+        s2 = s1.simplify()
+        l1 = s1.lower_completely()
+        l2 = l1.lower_completely()
+        o1 = fn(e)
+        o2 = fn(o1)
+        dt = time.time() - t0
+        try:
+            from dask_array._new_collection import new_collection
+            val = np.asarray(new_collection(o1).compute())
+            err = None
+        except Exception as ex:
+            val, err = None, f"{type(ex).__name__}: {str(ex)[:80]}"
+        return {"raw_ok": raw_ok, "raw": raw, "names": (s1._name, s2._name, l1._name, l2._name, o1._name, o2._name), "secs": dt,
+                "val": val, "err": err}
+
+    def domain(tier, rng):
+        for name in rw_entries(tier):
+            if not _untrimmed_overlap_slice(name):
+                yield {"entry": name, "tier": tier}
+
+
+def _untrimmed_overlap_slice(name):
+    return "map_overlap(" in name and "trim=False)[" in name
+
+
+@contract("dask_array/_expr.py::ArrayExpr.optimize", spec="idempotent-slice-of-untrimmed-overlap", props=["C08"])
+class optimize_idempotent_untrimmed(optimize_idempotent_rw):
+    """the same for slices of map_overlap(..., trim=False) along the overlapped axis (known finding F48: MapOverlap declines
+    the slice, but once it is lowered to Blockwise(OverlapInternal) a second optimisation pushes the slice through that
+    Blockwise -- a value-preserving rewrite the first optimisation did not reach, so optimize is not idempotent there)"""
+    scope = "rewrite-target entries map_overlap(..., trim=False)[a:b]"
+
+    def domain(tier, rng):
+        for name in rw_entries(tier):
+            if _untrimmed_overlap_slice(name):
+                yield {"entry": name, "tier": tier}
+
+
 @contract("dask_array/manipulation/_squeeze.py::squeeze", spec="unknown-axis", props=["C28"])
 class squeeze_unknown_axis:
     """squeeze() without an axis on an array with an unknown-length axis gives NumPy's shape or refuses (known finding F45:
